@@ -97,7 +97,7 @@ def run_case(case):
             for kk in range(-3, 17):
                 args = [x.copy() for x in base]
                 args[5] = args[5] - kk * np.log(10.)
-                tags = list(tags0) + [t for t, k0 in (('om2_scaling>=1e4', 4), ('om2_scaling>=1e8', 8), ('om2_scaling>=1e10', 10)) if kk >= k0]
+                tags = list(tags0) + [t for t, k0 in (('om2_scaling>=1e4', 4), ('om2_scaling>=1e8', 8), ('om2_scaling>=1e9', 9)) if kk >= k0]
                 try:
                     Ld = [np.array(x) for x in diff.Lij(*args)]
                     pair = None
